@@ -42,7 +42,7 @@ Judge(e) ==
   IF rejected
     THEN (IF c.mn \in CsrFamily THEN <<>> ELSE << K(c, "rejected") >>)
   ELSE
-    (IF IsPseudo(c.mn) \/ (c.form \in {"rd,lab", "rs2,lab,tmp"} /\ c.mn # "jal")
+    (IF IsPseudo(c.mn) \/ (c.form \in {"rd,lab", "rs2,lab,tmp", "rs2,imm,tmp"} /\ c.mn # "jal")
        THEN (IF \A i \in 1..Len(obs) : HasSemantics(obs[i])
                THEN (IF Equivalent(obs, ref) THEN <<>> ELSE << K(c, "semantics") >>)
                ELSE (IF obs = ref THEN <<>> ELSE << K(c, "fields") >>))   \* RV64-only forms: structural
